@@ -540,9 +540,115 @@ u_history(uint64_t idx, void *arg)
     }
 }
 
+/* One buffer of a little more than 2 GiB: operand counts that do not fit an int. The memory is mapped for the
+ * unit and returned afterwards; octets are a function of their position (position * 2654435761 >> 24), checked at
+ * sampled positions and around the 2^31 mark. When the machine cannot map that much, the unit is counted as not
+ * carried out and nothing is judged. */
+#include <sys/mman.h>
+
+static unsigned char
+gig_octet(size_t pos)
+{
+    return (unsigned char)(((uint64_t)pos * 2654435761ull) >> 24);
+}
+
+static const size_t gig_probe[] = { 0, 1, 6, 7, 8, 4095, 4096, 0x7ffffff9u, 0x7ffffffeu, 0x7fffffffu, 0x80000000u,
+                                    0x80000001u, 0x80000006u, 0x80000007u, 0x80000800u, 0x80000fffu, 0x80001000u, 0x80001006u };
+#define NGIGPROBE (sizeof gig_probe / sizeof gig_probe[0])
+
+static void
+u_gigantic(uint64_t idx, void *arg)
+{
+    (void)idx;
+    (void)arg;
+    VH_CASE4(0, 0, 0, 0);
+    const size_t total = 0x80000000u + 0x1000u + 7u, map = total + 0x1000u;
+    unsigned char *mem = mmap(NULL, map, PROT_READ | PROT_WRITE, MAP_PRIVATE | MAP_ANONYMOUS | MAP_NORESERVE, -1, 0);
+    unsigned char *src = mmap(NULL, map, PROT_READ | PROT_WRITE, MAP_PRIVATE | MAP_ANONYMOUS | MAP_NORESERVE, -1, 0);
+    unsigned char *dst = mmap(NULL, map, PROT_READ | PROT_WRITE, MAP_PRIVATE | MAP_ANONYMOUS | MAP_NORESERVE, -1, 0);
+    if (mem == MAP_FAILED || src == MAP_FAILED || dst == MAP_FAILED) {
+        VH_COUNT("gigantic buffer: not carried out (mapping refused)");
+        return;
+    }
+    /* the source: zero everywhere except a few octets at each probe position */
+    static unsigned char expect_at[NGIGPROBE];
+    for (size_t k = 0; k < NGIGPROBE; k++)
+        if (gig_probe[k] < total) {
+            src[gig_probe[k]] = gig_octet(gig_probe[k]) | 1u;
+            expect_at[k] = src[gig_probe[k]];
+        }
+    ByteBuffer b;
+    const char *key = "op=gigantic";
+    if (byte_buffer_space(&b, mem, total) != 0) {
+        vh_fail("gigantic-setup", key, "byte_buffer_space(%zu octets) refused", total);
+        goto out;
+    }
+    int rc = byte_buffer_add(&b, src, total);
+    if (rc != 0 || b.used != total || b.offset != 0 || b.size != total) {
+        vh_fail("gigantic-add", key, "add of %zu octets into an empty buffer of that size: rc=%d offset=%zu used=%zu size=%zu", total, rc, b.offset, b.used, b.size);
+        goto out;
+    }
+    for (size_t k = 0; k < NGIGPROBE; k++)
+        if (gig_probe[k] < total && mem[gig_probe[k]] != expect_at[k]) {
+            vh_fail("gigantic-add", key, "add of %zu octets: octet %zu is %02x, expected %02x", total, gig_probe[k], mem[gig_probe[k]], expect_at[k]);
+            goto out;
+        }
+    rc = byte_buffer_add(&b, src, 1);
+    if (rc >= 0 || b.used != total)
+        vh_fail("gigantic-add", key, "one octet more than fits: rc=%d used=%zu", rc, b.used);
+    /* seven octets off the front, rewind (2^31 + 4096 octets move), then one consume of 2^31 + 2048 octets */
+    unsigned char seven[7];
+    rc = byte_buffer_consume(&b, seven, 7);
+    if (rc != 0 || b.offset != 7 || seven[0] != expect_at[0] || seven[6] != expect_at[2])
+        vh_fail("gigantic-consume", key, "consume(7): rc=%d offset=%zu got %s", rc, b.offset, vh_hex(seven, 7));
+    byte_buffer_rewind(&b);
+    if (b.offset != 0 || b.used != total - 7 || b.size != total) {
+        vh_fail("gigantic-rewind", key, "rewind with %zu unread octets behind 7 consumed ones: offset=%zu used=%zu size=%zu", total - 7, b.offset, b.used, b.size);
+        goto out;
+    }
+    for (size_t k = 0; k < NGIGPROBE; k++)
+        if (gig_probe[k] >= 7 && gig_probe[k] < total && mem[gig_probe[k] - 7] != expect_at[k]) {
+            vh_fail("gigantic-rewind", key, "rewind: octet %zu (was %zu) is %02x, expected %02x", gig_probe[k] - 7, gig_probe[k], mem[gig_probe[k] - 7], expect_at[k]);
+            goto out;
+        }
+    const size_t take = 0x80000000u + 0x800u;
+    rc = byte_buffer_consume(&b, dst, take + 0x1000u);
+    if (rc >= 0 || b.offset != 0)
+        vh_fail("gigantic-consume", key, "consume of %zu octets with %zu unread: rc=%d offset=%zu", take + 0x1000u, total - 7, rc, b.offset);
+    rc = byte_buffer_consume(&b, dst, take);
+    VH_COUNT("gigantic buffer: consume of more than 2^31 octets in one call");
+    if (rc != 0 || b.offset != take || b.used != total - 7) {
+        vh_fail("gigantic-consume", key, "consume of %zu octets with %zu unread: rc=%d offset=%zu used=%zu (expected 0, offset %zu)", take, total - 7, rc, b.offset, b.used, take);
+        goto out;
+    }
+    for (size_t k = 0; k < NGIGPROBE; k++)
+        if (gig_probe[k] >= 7 && gig_probe[k] - 7 < take && dst[gig_probe[k] - 7] != expect_at[k]) {
+            vh_fail("gigantic-consume", key, "consume of %zu octets: octet %zu of the result is %02x, expected %02x", take, gig_probe[k] - 7, dst[gig_probe[k] - 7], expect_at[k]);
+            goto out;
+        }
+    /* what is left: 2048 octets; the at-most variant asked for 2^31 returns them */
+    ssize_t got = byte_buffer_consume_at_most(&b, dst, 0x80000000u);
+    if (got != (ssize_t)(total - 7 - take) || b.offset != b.used)
+        vh_fail("gigantic-atmost", key, "consume_at_most(2^31) with %zu unread: rc=%zd offset=%zu used=%zu", total - 7 - take, got, b.offset, b.used);
+    /* repeat makes everything unread again; the at-most variant hands out all of it in one call */
+    byte_buffer_repeat(&b);
+    got = byte_buffer_consume_at_most(&b, dst, total);
+    VH_COUNT("gigantic buffer: consume_at_most returning more than 2^31 octets");
+    if (got != (ssize_t)(total - 7) || b.offset != total - 7)
+        vh_fail("gigantic-atmost", key, "consume_at_most(%zu) with %zu unread: rc=%zd offset=%zu", total, total - 7, got, b.offset);
+    else if (dst[0x80000000u - 7] != expect_at[10] || dst[0] != expect_at[3])
+        vh_fail("gigantic-atmost", key, "consume_at_most(%zu): octets %02x %02x at 0 and 2^31-7, expected %02x %02x", total, dst[0], dst[0x80000000u - 7], expect_at[3], expect_at[10]);
+    vh_sig(0x18300000ull);
+out:
+    munmap(mem, map);
+    munmap(src, map);
+    munmap(dst, map);
+}
+
 void
 harness_run(void)
 {
+    vh_unit("gigantic", 0, u_gigantic, NULL);
     for (uint64_t i = 0; i < 10; i++)
         vh_unit("closure", i, u_closure, NULL);
     vh_require("closure complete size=5 with zero octets");
